@@ -74,7 +74,7 @@ class SimRawFile(io.RawIOBase):
 class SimRawSink(io.RawIOBase):
     """Raw sink: accepts a seeded prefix of each write (short writes); EPIPE/ENOSPC once `fail_at` bytes were taken."""
 
-    def __init__(self, rng, max_chunk, fail_at=None, fail_errno=errno.EPIPE, stats=None):
+    def __init__(self, rng, max_chunk, fail_at=None, fail_errno=errno.EPIPE, stats=None, tty=False, again_at=None, again_times=0):
         super().__init__()
         self.buf = bytearray()
         self.rng = rng
@@ -82,15 +82,27 @@ class SimRawSink(io.RawIOBase):
         self.fail_at = fail_at
         self.fail_errno = fail_errno
         self.stats = stats if stats is not None else {}
+        self.tty = tty
+        self.again_at = again_at          # transient EAGAIN: a non-blocking pipe that is full `again_times` times at this offset
+        self.again_left = again_times
 
     def writable(self):
         return True
+
+    def isatty(self):
+        return self.tty
 
     def write(self, b):
         b = bytes(b)
         if not b:
             return 0
+        if self.again_at is not None and self.again_left > 0 and len(self.buf) >= self.again_at:
+            self.again_left -= 1
+            self.stats['EAGAIN'] = self.stats.get('EAGAIN', 0) + 1
+            return None                  # what a raw non-blocking file does when it would block
         n = min(len(b), self.rng.randint(1, self.max_chunk))
+        if self.again_at is not None and self.again_left > 0 and len(self.buf) < self.again_at:
+            n = min(n, self.again_at - len(self.buf))
         if self.fail_at is not None:
             room = self.fail_at - len(self.buf)
             if room <= 0:
@@ -220,7 +232,9 @@ def cli_channel(scn):
     if fault.get('kind') in ('EPIPE', 'ENOSPC'):
         fail_at = fault['at']
         fail_errno = errno.EPIPE if fault['kind'] == 'EPIPE' else errno.ENOSPC
-    sink = SimRawSink(rng, knobs['write_chunk'], fail_at, fail_errno, stats)
+    again_at, again_times = (fault['at'], fault.get('times', 1)) if fault.get('kind') == 'EAGAIN' else (None, 0)
+    sink = SimRawSink(rng, knobs['write_chunk'], fail_at, fail_errno, stats, tty=bool(knobs.get('tty')),
+                      again_at=again_at, again_times=again_times)
     out = io.TextIOWrapper(io.BufferedWriter(sink, buffer_size=knobs['out_bufsize']), encoding=knobs['stdout_encoding'],
                            errors='strict', newline='', write_through=False)
     dashes = ['--'] if any(n.startswith('-') for n in scn['argv_files']) else []
